@@ -82,17 +82,27 @@ structure Req where
   method : Str
   origin : Str            -- Header.Get("Origin"): first value, "" when absent
   acrm : Str              -- Header.Get("Access-Control-Request-Method")
+  acrh : Str := []        -- Header.Get("Access-Control-Request-Headers"): never read by the module
   deriving DecidableEq, Repr
 
-/-- the origin / max-age checks of `ruleConvert` (the other lists are generated valid) -/
+/-- the origin checks of `ruleConvert` -/
 def originOk (r : Rule) (o : Str) : Bool :=
   !(o.head? == some 0x25 && o != sPctOrigin) &&
   !(o.contains 0x2a && o.length != 1) &&
   !(o == sStar && r.creds) &&
   !((o == sNull || o == sStar) && r.origins.length != 1)
 
+/-- the wildcard checks `ruleConvert` applies to each of the three lists -/
+def listItemOk (l : List Str) (x : Str) : Bool :=
+  !(x.contains 0x2a && x.length != 1) && !(x == sStar && l.length != 1)
+
+def methodOk (l : List Str) (x : Str) : Bool :=
+  listItemOk l x && (x == sStar || supportedMethods.contains x)
+
 def ruleOk (r : Rule) : Bool :=
   !r.origins.isEmpty && r.origins.all (originOk r) &&
+  r.headers.all (listItemOk r.headers) && r.expose.all (listItemOk r.expose) &&
+  r.methods.all (methodOk r.methods) &&
   (match r.maxAge with
    | none => true
    | some m => !(decide (m < -1) || decide (m > 86400)))
@@ -206,6 +216,8 @@ def verdict (hasRules : Bool) (rules : List Rule) (req : Req) (backend : Hdr) (k
       else "ok"
     else
       if h.acao != [expectedAcao req.origin r] then "FAIL:acao-wrong"
+      -- Fetch: `Access-Control-Allow-Origin: *` must not be combined with `Access-Control-Allow-Credentials: true`
+      else if h.acao == [sStar] && h.acac == [sTrue] then "FAIL:star-with-credentials"
       else if !base.vary.isPrefixOf h.vary then "FAIL:vary-lost-values"
       else if !varyCovers h.vary then "FAIL:vary-missing-origin"
       else if h.acac != (if r.creds then [sTrue] else base.acac) then "FAIL:credentials-wrong"
